@@ -15,6 +15,7 @@ import (
 	"os"
 	osexec "os/exec"
 	"path/filepath"
+	"reflect"
 	"runtime"
 	"sort"
 	"strconv"
@@ -389,7 +390,7 @@ func (e *exec) run() {
 }
 
 func (e *exec) settle() {
-	if err := c14q.Quiesce(20 * time.Second); err != nil {
+	if err := c14q.Quiesce(10 * time.Second); err != nil {
 		harnessFail(err)
 	}
 }
@@ -812,7 +813,9 @@ type hx struct {
 	wait    func()
 }
 
-func newHx(kind string, lanes int) *hx {
+func newHx(kind string, lanes int) *hx { return newHxCap(kind, lanes, 64) }
+
+func newHxCap(kind string, lanes, chanCap int) *hx {
 	h := &hx{kind: kind, variant: -1}
 	if v, ok := runnerVariants[kind]; ok {
 		h.kind, h.variant = "runner", v
@@ -841,7 +844,9 @@ func newHx(kind string, lanes int) *hx {
 			}
 			switch v {
 			case 0:
-				return rq.AsyncCall(func(c context.Context, a int) (interface{}, error) { return fn(c, a, true) }, ctx, id)
+				// the reflective entry validates and caches every callee TYPE on first use: use many types
+				f, arg := typedCallee(id, fn)
+				return rq.AsyncCall(f, ctx, arg)
 			case 1:
 				return rq.AsyncDelegate(ctx, func(c context.Context) (interface{}, error) { return fn(c, nil, false) })
 			}
@@ -849,13 +854,46 @@ func newHx(kind string, lanes int) *hx {
 		}
 	default:
 		wg := &sync.WaitGroup{}
-		pc := async.NewProcChan(async.WithQSize(64), async.WithWaitGroup(wg))
+		pc := async.NewProcChan(async.WithQSize(chanCap), async.WithWaitGroup(wg))
 		h.run, h.stop, h.wait = pc.Run, pc.Stop, wg.Wait
 		h.call = func(ctx context.Context, id, hash int, fn func(context.Context, interface{}, bool) (interface{}, error)) (interface{}, error) {
 			return pc.AsyncProc(ctx, procF(func(c context.Context) (interface{}, error) { return fn(c, nil, false) }))
 		}
 	}
 	return h
+}
+
+// typedCallee builds a callee of one of 64 function types `func(context.Context, [k]byte) (interface{}, error)` (fresh types
+// for every hammer round: typeSalt) whose argument carries the call id
+var typeSalt int
+
+func typedCallee(id int, fn func(context.Context, interface{}, bool) (interface{}, error)) (interface{}, interface{}) {
+	arrT := reflect.ArrayOf(8+id%64+64*typeSalt, reflect.TypeOf(byte(0)))
+	ctxT := reflect.TypeOf((*context.Context)(nil)).Elem()
+	ifT := reflect.TypeOf((*interface{})(nil)).Elem()
+	errT := reflect.TypeOf((*error)(nil)).Elem()
+	ft := reflect.FuncOf([]reflect.Type{ctxT, arrT}, []reflect.Type{ifT, errT}, false)
+	f := reflect.MakeFunc(ft, func(args []reflect.Value) []reflect.Value {
+		got := 0
+		for i := 0; i < 8; i++ {
+			got |= int(args[1].Index(i).Uint()) << (8 * i)
+		}
+		ctx, _ := args[0].Interface().(context.Context)
+		r, err := fn(ctx, got, true)
+		rv, ev := reflect.New(ifT).Elem(), reflect.New(errT).Elem()
+		if r != nil {
+			rv.Set(reflect.ValueOf(r))
+		}
+		if err != nil {
+			ev.Set(reflect.ValueOf(err))
+		}
+		return []reflect.Value{rv, ev}
+	})
+	arg := reflect.New(arrT).Elem()
+	for i := 0; i < 8; i++ {
+		arg.Index(i).SetUint(uint64(id>>(8*i)) & 0xff)
+	}
+	return f.Interface(), arg.Interface()
 }
 
 type procF func(ctx context.Context) (interface{}, error)
@@ -883,14 +921,19 @@ func hammer(kind string, seed, n int) map[string]string {
 	waitExit := func(h *hx, what string) bool {
 		done := make(chan struct{})
 		go func() { h.wait(); close(done) }()
+		// no timeout: once every goroutine is parked or gone, a lane that has not left never will
+		if err := c14q.Quiesce(10 * time.Second); err != nil {
+			harnessFail(err)
+		}
 		select {
 		case <-done:
 			return true
-		case <-time.After(3 * time.Second):
+		default:
 			hit("C14:"+name+":lane-not-terminated", what)
 			return false
 		}
 	}
+	typeSalt++
 	// ---- A: parallel callers
 	{
 		h := newHx(kind, 3)
@@ -951,6 +994,145 @@ func hammer(kind string, seed, n int) map[string]string {
 		if !waitExit(h, fmt.Sprintf("Stop right after the last result (round %d): the lane goroutine never terminated", round)) {
 			break
 		}
+	}
+	return hits
+}
+
+// backlog: one callee is held, n further calls are accepted behind it (line / multi-line: from one goroutine, in a known
+// order, with contexts that are already done — the caller leaves at once, the call stays queued and must still run;
+// runner / pchan: n parallel callers), then the callee is released. Every accepted call runs exactly once (line /
+// multi-line: in acceptance order), every caller that waits gets its own value, the lane lives until Stop.
+func backlog(kind string, n int) map[string]string {
+	defer runtime.GOMAXPROCS(runtime.GOMAXPROCS(4))
+	hits := map[string]string{}
+	var mu sync.Mutex
+	hit := func(k, v string) {
+		mu.Lock()
+		if _, ok := hits[k]; !ok {
+			hits[k] = v
+		}
+		mu.Unlock()
+	}
+	name := kindName(strings.Split(kind, "-")[0])
+	if strings.HasPrefix(kind, "runner") {
+		name = "RunnerQ"
+	}
+	settle := func() {
+		if err := c14q.Quiesce(10 * time.Second); err != nil {
+			harnessFail(err)
+		}
+	}
+	typeSalt++
+	h := newHxCap(kind, 1, n+2)
+	h.run()
+	gate := make(chan struct{})
+	var order []int // ids in execution order
+	ran := make([]int32, n+2)
+	callee := func(id int) func(context.Context, interface{}, bool) (interface{}, error) {
+		return func(c context.Context, arg interface{}, hasArg bool) (interface{}, error) {
+			if id == 0 {
+				<-gate
+			}
+			atomic.AddInt32(&ran[id], 1)
+			mu.Lock()
+			order = append(order, id)
+			mu.Unlock()
+			if hasArg && arg != id {
+				hit("C14:"+name+":wrong-argument", fmt.Sprintf("backlog of %d: the callee of call %d was handed argument %v", n, id, arg))
+			}
+			return id, nil
+		}
+	}
+	tag := func(id int) context.Context { return context.WithValue(context.Background(), ctxKey{}, id) }
+	first := make(chan string, 1)
+	go func() { r, err := h.call(tag(0), 0, 0, callee(0)); first <- canon(r, err) }()
+	settle()
+	sequential := h.kind == "line" || h.kind == "mline"
+	var wg sync.WaitGroup
+	if sequential {
+		for id := 1; id <= n; id++ {
+			ctx, cancel := context.WithCancel(tag(id))
+			cancel()
+			if _, err := h.call(ctx, id, 0, callee(id)); err != context.Canceled {
+				hit("C14:"+name+":misrouted-result", fmt.Sprintf("backlog: a caller whose context was done got %v", err))
+			}
+		}
+	} else {
+		for id := 1; id <= n; id++ {
+			id := id
+			wg.Add(1)
+			go func() {
+				defer wg.Done()
+				r, err := h.call(tag(id), id, 0, callee(id))
+				if got := canon(r, err); got != "ok"+strconv.Itoa(id) {
+					hit("C14:"+name+":misrouted-result", fmt.Sprintf("backlog of %d: caller of call %d received %s", n, id, got))
+				}
+			}()
+		}
+		settle()
+	}
+	close(gate)
+	if got := <-first; got != "ok0" {
+		hit("C14:"+name+":misrouted-result", "backlog: the caller of the held call received "+got)
+	}
+	// a sentinel behind everything: when it has run, every call accepted before it has been handled
+	sent := make(chan string, 1)
+	go func() { r, err := h.call(tag(n+1), n+1, 0, callee(n+1)); sent <- canon(r, err) }()
+	settle()
+	select {
+	case got := <-sent:
+		if got != "ok"+strconv.Itoa(n+1) {
+			hit("C14:"+name+":misrouted-result", "backlog: the sentinel's caller received "+got)
+		}
+	default:
+		hit("C14:"+name+":lane-stuck", fmt.Sprintf("backlog of %d: a call submitted behind the backlog never returned although everything is parked", n))
+	}
+	if !sequential {
+		fin := make(chan struct{})
+		go func() { wg.Wait(); close(fin) }()
+		settle()
+		select {
+		case <-fin:
+		default:
+			hit("C14:"+name+":accepted-call-dropped", fmt.Sprintf("backlog of %d: some callers never got their result although everything is parked", n))
+		}
+	}
+	mu.Lock()
+	got := append([]int{}, order...)
+	mu.Unlock()
+	for id := 0; id <= n+1; id++ {
+		switch c := atomic.LoadInt32(&ran[id]); {
+		case c == 0:
+			hit("C14:"+name+":accepted-call-dropped", fmt.Sprintf("backlog of %d: accepted call %d was never executed (%d of %d ran)", n, id, len(got), n+2))
+		case c > 1:
+			hit("C14:"+name+":call-executed-twice", fmt.Sprintf("backlog of %d: call %d was executed %d times", n, id, c))
+		}
+		if c := atomic.LoadInt32(&ran[id]); c != 1 {
+			break
+		}
+	}
+	if sequential {
+		for i := 1; i < len(got); i++ {
+			if got[i] < got[i-1] {
+				hit("C14:"+name+":start-order", fmt.Sprintf("backlog of %d: call %d ran after call %d although it was accepted earlier", n, got[i], got[i-1]))
+				break
+			}
+		}
+	}
+	done := make(chan struct{})
+	go func() { h.wait(); close(done) }()
+	settle()
+	select {
+	case <-done:
+		hit("C14:"+name+":lane-exited-without-Stop", fmt.Sprintf("backlog of %d: the lane goroutine left although Stop was never called", n))
+	default:
+	}
+	h.stop()
+	settle()
+	select {
+	case <-done:
+	default:
+		hit("C14:"+name+":lane-not-terminated", fmt.Sprintf("backlog of %d: after Stop the lane goroutine is still alive", n))
 	}
 	return hits
 }
@@ -1095,6 +1277,20 @@ func runScript(lines []string) ([]string, map[string]string) {
 				}
 				out = "done"
 			}
+		case len(w) == 3 && w[0] == "backlog":
+			_, okk := runnerVariants[w[1]]
+			n, ok1 := parseNat(w[2])
+			if (okk || w[1] == "line" || w[1] == "mline" || w[1] == "pchan") && ok1 && n >= 1 && n <= 5000 {
+				for k, v := range backlog(w[1], n) {
+					if _, ok := hits[k]; !ok {
+						hits[k] = v
+						if hitSink != nil {
+							hitSink(k, v)
+						}
+					}
+				}
+				out = "done"
+			}
 		case len(w) == 1 && w[0] == "run" && e != nil:
 			e.run()
 			out = e.drain()
@@ -1143,8 +1339,8 @@ func amplify(tag string, lines []string) (n int, oneP bool) {
 			if runs++; runs > 1 {
 				n, oneP = 2, true // a second consumer would make Stop crash inside the library: child process
 			}
-		case strings.HasPrefix(l, "hammer "):
-			return 1, true
+		case strings.HasPrefix(l, "hammer "), strings.HasPrefix(l, "backlog "):
+			return 1, false
 		case strings.HasPrefix(l, "new "):
 			pchan, stopped, cancelled, runs = strings.HasPrefix(l, "new pchan "), false, false, 0
 		case l == "stop":
@@ -1180,13 +1376,14 @@ func amplify(tag string, lines []string) (n int, oneP bool) {
 type childReq struct {
 	Lines []string `json:"lines"`
 	N     int      `json:"n"`
+	OneP  bool     `json:"onep"`
 }
 
 // runScriptChild: `c14 runscript` — a server loop: one JSON request per input line; executes the script N times with
 // GOMAXPROCS(1) in this (child) process and streams `O <json outs>` (first execution), `H <json hit>` lines and a final
 // `E`. A panic inside a library goroutine kills only this child; the parent turns that into an observation.
 func runScriptChild() {
-	runtime.GOMAXPROCS(1)
+	procs := runtime.GOMAXPROCS(0)
 	in := bufio.NewScanner(os.Stdin)
 	in.Buffer(make([]byte, 1<<20), 1<<26)
 	w := bufio.NewWriter(os.Stdout)
@@ -1195,6 +1392,11 @@ func runScriptChild() {
 		if err := json.Unmarshal(in.Bytes(), &req); err != nil {
 			fmt.Fprintln(os.Stderr, "harness error: runscript:", err)
 			os.Exit(2)
+		}
+		if req.OneP {
+			runtime.GOMAXPROCS(1)
+		} else {
+			runtime.GOMAXPROCS(procs)
 		}
 		seen := map[string]bool{}
 		hitSink = func(key, what string) {
@@ -1244,7 +1446,7 @@ func runScriptChild() {
 func scriptKind(lines []string) string {
 	k := "Line"
 	for _, l := range lines {
-		if f := strings.Fields(l); len(f) >= 2 && f[0] == "new" {
+		if f := strings.Fields(l); len(f) >= 2 && (f[0] == "new" || f[0] == "hammer" || f[0] == "backlog") {
 			name := f[1]
 			if strings.HasPrefix(name, "runner") {
 				name = "runner"
@@ -1265,9 +1467,11 @@ type childProc struct {
 
 var child *childProc
 
+// a script that does not finish in this time hangs inside the code under test (ordinary scripts take milliseconds)
+const childTimeout = 45 * time.Second
+
 func startChild() *childProc {
 	cmd := osexec.Command(os.Args[0], "runscript")
-	cmd.Env = append(os.Environ(), "GOMAXPROCS=1")
 	stdin, err := cmd.StdinPipe()
 	if err != nil {
 		harnessFail(err)
@@ -1293,19 +1497,19 @@ func (c *childProc) stop() {
 }
 
 // runInChild runs the script in the child process (GOMAXPROCS 1); a crash of the child is an observation, not a harness error.
-func runInChild(lines []string, n int) corr.Result {
+func runInChild(lines []string, n int, oneP bool) corr.Result {
 	var res corr.Result
 	if child == nil {
 		child = startChild()
 	}
 	c := child
-	b, _ := json.Marshal(childReq{Lines: lines, N: n})
+	b, _ := json.Marshal(childReq{Lines: lines, N: n, OneP: oneP})
 	c.in.Write(b)
 	c.in.WriteByte('\n')
 	c.in.Flush()
 	ended := false
 	var partial []string
-	timer := time.AfterFunc(120*time.Second, func() { _ = c.cmd.Process.Kill() })
+	timer := time.AfterFunc(childTimeout, func() { _ = c.cmd.Process.Kill() })
 	for c.out.Scan() {
 		l := c.out.Text()
 		if l == "E" {
@@ -1339,8 +1543,30 @@ func runInChild(lines []string, n int) corr.Result {
 		_ = c.cmd.Wait()
 		child = nil
 		msg := c.errb.String()
+		fill := func() {
+			if len(res.Outs) != len(lines) {
+				res.Outs = append([]string{}, partial...)
+				for len(res.Outs) < len(lines) {
+					res.Outs = append(res.Outs, "crashed")
+				}
+			}
+		}
 		if killed {
-			harnessFail(fmt.Errorf("child running %v did not finish within 120 s", lines))
+			// the code under test hangs (e.g. a spinning lock): an observation, with the script as replay
+			res.Hits = append(res.Hits, corr.Hit{Key: "C14:" + scriptKind(lines) + ":operation-never-completes",
+				What: fmt.Sprintf("the script did not finish within %v (stopped at op %d of %d); the process was killed", childTimeout, len(partial)+1, len(lines))})
+			fill()
+			return res
+		}
+		if strings.Contains(msg, "no quiescent snapshot within") {
+			// goroutines of the code under test keep running without any stimulus
+			at := msg[strings.Index(msg, "no quiescent snapshot within"):]
+			if len(at) > 600 {
+				at = at[:600]
+			}
+			res.Hits = append(res.Hits, corr.Hit{Key: "C14:" + scriptKind(lines) + ":goroutines-never-quiesce", What: strings.ReplaceAll(at, "\n", " | ")})
+			fill()
+			return res
 		}
 		if strings.Contains(msg, "harness error") || !(strings.Contains(msg, "panic:") || strings.Contains(msg, "fatal error:")) {
 			fmt.Fprintln(os.Stderr, msg)
@@ -1384,38 +1610,10 @@ func runInChild(lines []string, n int) corr.Result {
 }
 
 func runCase(c corr.Case) corr.Result {
-	if os.Getenv("C14_SLOW") != "" {
-		t0 := time.Now()
-		defer func() {
-			if d := time.Since(t0); d > 150*time.Millisecond {
-				fmt.Fprintf(os.Stderr, "SLOW %v %s %v\n", d, c.Tag, c.Lines)
-			}
-		}()
-	}
-	var res corr.Result
+	// every script runs in the child process: a panic in a goroutine of the code under test, a runtime fatal error or a
+	// hang then is an observation (monitor hit with the script as replay), never a failure of this process
 	n, oneP := amplify(c.Tag, c.Lines)
-	if oneP {
-		return runInChild(c.Lines, n)
-	}
-	seen := map[string]bool{}
-	for i := 0; i < n; i++ {
-		outs, hits := runScript(c.Lines)
-		if i == 0 {
-			res.Outs = outs
-		}
-		var keys []string
-		for k := range hits {
-			keys = append(keys, k)
-		}
-		sort.Strings(keys)
-		for _, k := range keys {
-			if !seen[k] {
-				seen[k] = true
-				res.Hits = append(res.Hits, corr.Hit{Key: k, What: hits[k]})
-			}
-		}
-	}
-	return res
+	return runInChild(c.Lines, n, oneP)
 }
 
 // ---------------------------------------------------------------- generator
@@ -1711,7 +1909,7 @@ func genKernel(r *rng.R) []string {
 }
 
 func genGarbage(r *rng.R) []string {
-	toks := []string{"new", "call", "recall", "fin", "cancel", "stop", "run", "boom", "hammer", "slot", "line", "mline", "pchan", "runner", "runner-call", "runner-x", "ok", "err", "0", "1", "-1", "x",
+	toks := []string{"backlog", "new", "call", "recall", "fin", "cancel", "stop", "run", "boom", "hammer", "slot", "line", "mline", "pchan", "runner", "runner-call", "runner-x", "ok", "err", "0", "1", "-1", "x",
 		"99999999999999999999", "1e3", "+1", "", "  ", "0x10", "-9223372036854775809"}
 	lines := []string{r.Pick("new line 1 1", "new mline 2 0", "new bogus 1 1", "new line 2 0", "new pchan 1 1", "new runner 0 0")}
 	for i := 0; i < 8; i++ {
@@ -1770,6 +1968,7 @@ func fixedCases() []corr.Case {
 		raw("witness-boom", "new "+k+" 1 4", "run", "call 0 1", "call 1 1", "boom 0", "fin 1 ok 1")
 		raw("witness-boom", "new "+k+" 1 4", "run", "call 0 1", "fin 0 ok 1", "call 1 1", "boom 1")
 		raw("hammer", "new line 1 0", "hammer "+k+" 1 4")
+		raw("backlog", "new line 1 0", "backlog "+k+" 70", "backlog "+k+" 300")
 	}
 	return cs
 }
@@ -1810,6 +2009,9 @@ func spec() corr.Spec {
 			case i%50 == 29:
 				k := giveupKinds[(i/50)%len(giveupKinds)]
 				return corr.Case{Tag: "boom-" + k, Lines: genBoom(r, k)}
+			case i%300 == 83 || (tier != "quick" && i%100 == 83):
+				k := giveupKinds[(i/100)%len(giveupKinds)]
+				return corr.Case{Tag: "backlog", Lines: []string{"new line 1 0", fmt.Sprintf("backlog %s %d", k, r.PickInt(65, 130, 300, 1000, 3000))}}
 			case i%400 == 63 || (tier != "quick" && i%100 == 63):
 				k := giveupKinds[(i/100)%len(giveupKinds)]
 				return corr.Case{Tag: "hammer", Lines: []string{"new line 1 0", fmt.Sprintf("hammer %s %d %d", k, r.Range(0, 1<<20), r.Range(2, 6))}}
